@@ -39,6 +39,10 @@ func main() {
 			genC02(g, n, os.Stdout)
 		case "c12":
 			genC12(g, n, os.Stdout)
+		case "c08":
+			genC08(g, n, os.Stdout, n > 1)
+		case "c06":
+			genC06(g, n, os.Stdout)
 		case "c14":
 			genC14(g, n, os.Stdout)
 		case "c13":
@@ -64,6 +68,13 @@ func main() {
 		default:
 			usage()
 		}
+	case "oneshot":
+		runOneshot(os.Stdin)
+	case "racestress":
+		seed, _ := strconv.ParseInt(os.Args[2], 10, 64)
+		gr, _ := strconv.Atoi(os.Args[3])
+		calls, _ := strconv.Atoi(os.Args[4])
+		runRaceStress(seed, gr, calls)
 	case "impl":
 		runImpl(os.Stdin, os.Stdout)
 	case "extract":
